@@ -15,7 +15,7 @@ def forgery(rng, oid, has_priv, delay):
     """An otherwise-matching reply (right user, engine id, msgID, request-id) that
     fails authentication or the security level."""
     it = {"k": "custom", "pdu": "response", "varbinds": [[oid, ["octets", MARK]]], "delay_ns": delay}
-    kind = rng.choice(["zero", "random", "flip", "absent", "short", "noauth", "flag-cleared", "cleartext", "cleartext-flagged", "noauth-report-control", "valid-control", "bad-mac-cleartext"])
+    kind = rng.choice(["zero", "random", "flip", "absent", "short", "noauth", "flag-cleared", "cleartext", "cleartext-flagged", "noauth-report-control", "valid-control", "bad-mac-cleartext", "noauth-any-flags", "noauth-any-flags"])
     if kind in ("zero", "absent"):
         it["rewrite"] = {"mac": kind}
     elif kind == "random":
@@ -34,6 +34,9 @@ def forgery(rng, oid, has_priv, delay):
         it["rewrite"] = {"cleartext": 1, "flags": 3} if has_priv else {"noauth": 1}
     elif kind == "bad-mac-cleartext":
         it["rewrite"] = {"cleartext": 1, "mac": "zero"} if has_priv else {"mac": "zero"}
+    elif kind == "noauth-any-flags":
+        # no MAC, cleartext body, but the flag octet claims whatever it likes (never the auth bit)
+        it["rewrite"] = {"noauth": 1, "flags": rng.choice([0, 2, 4, 6])}
     elif kind == "noauth-report-control":
         it["pdu"] = "report"
         it["varbinds"] = [["1.3.6.1.6.3.15.1.1.5.0", ["counter32", rng.randrange(2**32)]]]
@@ -73,6 +76,10 @@ class C10(Prop):
         base_flags = 3 if has_priv else 1
         ops = [{"id": 1, "s": 0, "op": "refresh"}]
         scripts = {}
+        if rng.random() < 0.25:
+            # the first refresh fails half-way and is retried
+            scripts["1:%d" % rng.choice([1, 2])] = {"replies": [{"k": "none"}]}
+            ops.append({"id": 100, "s": 0, "op": "refresh"})
         oids = [r[0] for r in a["mib"]]
         for opid in range(2, rng.randint(3, 6)):
             oid = rng.choice(oids)
